@@ -22,7 +22,9 @@ func finalizeOutput(obj any) any {
 
 func finalizeMap(obj map[string]any) map[string]any {
 	newObj := make(map[string]any, len(obj))
-	for k, v := range obj {
+	// Sorted: if two keys are equal once unescaped ("$$A" and "$A"), which
+	// value survives must not depend on map iteration order.
+	for k, v := range sortedMap(obj) {
 		newObj[finalizeString(k)] = finalizeOutput(v)
 	}
 
